@@ -82,6 +82,15 @@ def PlainEq (p q : Plain) : Prop := (∀ a, p.acct a = q.acct a) ∧ (∀ a k, p
 
 def hasStorage (p : Plain) (a : Nat) : Bool := p.stor.any (fun e => e.1 == a && p.slot a e.2.1 != 0)
 
+/-- the keys of an association list are pairwise distinct (an `EvmState` and the storage of each of its
+accounts are `HashMap`s) -/
+def distinctKeys {α : Type} : List (Nat × α) → Bool
+  | [] => true
+  | e :: r => !(r.any (fun x => x.1 == e.1)) && distinctKeys r
+
+/-- a database keeps no storage for an account that does not exist -/
+def plainWF (p : Plain) : Prop := ∀ a, p.acct a = none → ∀ k, p.slot a k = 0
+
 /-- what the EVM can commit for one account when the plain state is `p` (the conditions the generator
 of the correspondence stream obeys; DESIGN A.2 "Reach") -/
 def evmOk (_sc : Bool) (p : Plain) (a : Nat) (e : EvmAcct) : Bool :=
@@ -89,7 +98,7 @@ def evmOk (_sc : Bool) (p : Plain) (a : Nat) (e : EvmAcct) : Bool :=
   let old := p.acct a
   let origOk := e.storage.all (fun s => s.2.orig == (if e.created then 0 else p.slot a s.1))
   let changed := e.storage.any (fun s => s.2.isChanged)
-  origOk &&
+  distinctKeys e.storage && origOk &&
   (if e.created then
      -- creation target: absent, or no nonce / code / storage (EIP-684, EIP-7610)
      (match old with | none => true | some o => o.nonce == 0 && o.codeHash == 0 && !hasStorage p a)
@@ -118,7 +127,7 @@ def runHistory (s : SState) (p : Plain) : List Group → Option (List (SState ×
 /-- every commit of the history is EVM-reachable from the reference state it is applied to -/
 def reachGroup (sc : Bool) (p : Plain) : Group → Bool
   | [] => true
-  | c :: cs => c.all (fun e => evmOk sc p e.1 e.2) && reachGroup sc (applyCommit sc p c) cs
+  | c :: cs => distinctKeys c && c.all (fun e => evmOk sc p e.1 e.2) && reachGroup sc (applyCommit sc p c) cs
 def groupEnd (sc : Bool) (p : Plain) (g : Group) : Plain := g.foldl (applyCommit sc) p
 def reachHistory (sc : Bool) (p : Plain) : List Group → Bool
   | [] => true
@@ -127,12 +136,14 @@ def reachHistory (sc : Bool) (p : Plain) : List Group → Bool
 /-- the database a `State` is built over agrees with the plain state `p` -/
 def dbMatches (db : BMap Info) (p : Plain) : Prop := ∀ a, (db.get a).map Info.withoutCode = p.acct a
 
-/-- **C16, full statement**: for every database, both state-clear settings, every EVM-reachable history
-and merge schedule and both `OriginalValuesKnown` settings, merging never panics and the changeset
-applied to the pre-history plain state is the post-history plain state. -/
+/-- **C16, full statement**: for every database (`plainWF`: no storage under absent accounts), both
+state-clear settings, every EVM-reachable history and merge schedule and both `OriginalValuesKnown`
+settings, merging never panics and the changeset applied to the pre-history plain state is the
+post-history plain state. (The bundle is built by a fresh `State` from an empty bundle; for bundles
+started with `take_bundle` on a continuing `State` see finding F3.) -/
 def ChangesetCorrectStatement : Prop :=
   ∀ (db : BMap Info) (sc : Bool) (p0 : Plain) (h : List Group) (known : Bool),
-    dbMatches db p0 → reachHistory sc p0 h = true →
+    dbMatches db p0 → plainWF p0 → reachHistory sc p0 h = true →
     ∃ l, runHistory { db := db, sc := sc } p0 h = some l ∧
       ∀ s r, l.getLast? = some (s, r) → PlainEq (applyChangeset (toPlainState s.bundle known) p0) r
 
@@ -140,7 +151,7 @@ def ChangesetCorrectStatement : Prop :=
 block k of the plain reverts maps the reference state after group k to the one before it. -/
 def RevertKCorrectStatement (dbReading : Bool) : Prop :=
   ∀ (db : BMap Info) (sc : Bool) (p0 : Plain) (h : List Group),
-    dbMatches db p0 → reachHistory sc p0 h = true →
+    dbMatches db p0 → plainWF p0 → reachHistory sc p0 h = true →
     ∃ l, runHistory { db := db, sc := sc } p0 h = some l ∧
       ∀ s r, l.getLast? = some (s, r) →
         ∀ (k : Nat) blk before after, (toPlainStateReverts s.bundle)[k]? = some blk →
@@ -151,7 +162,7 @@ def RevertKCorrectStatement (dbReading : Bool) : Prop :=
 describes the state after the first n - j groups. -/
 def RevertJEqualsPrefixStatement : Prop :=
   ∀ (db : BMap Info) (sc : Bool) (p0 : Plain) (h : List Group) (j : Nat) (known : Bool),
-    dbMatches db p0 → reachHistory sc p0 h = true →
+    dbMatches db p0 → plainWF p0 → reachHistory sc p0 h = true →
     ∃ l, runHistory { db := db, sc := sc } p0 h = some l ∧
       ∀ s r, l.getLast? = some (s, r) →
         ∀ tgt, (p0 :: l.map (·.2))[h.length - j]? = some tgt →
@@ -161,7 +172,7 @@ def RevertJEqualsPrefixStatement : Prop :=
 bundle describes the same post-state and the same per-block pre-values as the monolithic one. -/
 def ExtendStatement (dbReading : Bool) : Prop :=
   ∀ (db db2 : BMap Info) (sc : Bool) (p0 : Plain) (h1 h2 : List Group) (known : Bool),
-    dbMatches db p0 → reachHistory sc p0 (h1 ++ h2) = true →
+    dbMatches db p0 → plainWF p0 → reachHistory sc p0 (h1 ++ h2) = true →
     ∃ l1 l2, runHistory { db := db, sc := sc } p0 h1 = some l1 ∧
       ∀ s1 r1, l1.getLast? = some (s1, r1) → dbMatches db2 r1 →
         runHistory { db := db2, sc := sc } r1 h2 = some l2 ∧
